@@ -16,9 +16,11 @@ from . import scalars as sc
 from .scalars import S
 from . import explore
 from .explore import NotModelled
+from .taint import TS
 
 
 class Config:
+    bool_to_num = "fork"  # "fork": a symbolic bool converted to a number forks the path; "ite": becomes ite(b,1,0)
     simplex_shortcut = True  # softmax / softplus / sigmoid of free parameters become constrained variables
     float_bits = 24  # precision at which real float32 tensors are read
 
@@ -34,7 +36,7 @@ def _obj(x):
     """nested python structure / ndarray of scalars -> object ndarray of S."""
     if isinstance(x, np.ndarray) and x.dtype == object:
         return x
-    if isinstance(x, S):
+    if isinstance(x, (S, TS)):
         a = np.empty((), dtype=object)
         a[()] = x
         return a
@@ -43,7 +45,7 @@ def _obj(x):
         out = np.empty(arr.shape, dtype=object)
         for idx in np.ndindex(arr.shape):
             e = arr[idx]
-            out[idx] = e if isinstance(e, S) else sc.lift_num(e)
+            out[idx] = e if isinstance(e, (S, TS)) else sc.lift_num(e)
         return out
     out = np.empty(arr.shape, dtype=object)
     flat = out.reshape(-1) if out.ndim else None
@@ -100,13 +102,33 @@ def _fix(a):
         a = _obj(a)
     else:
         for idx in np.ndindex(a.shape):
-            if not isinstance(a[idx], S):
+            if not isinstance(a[idx], (S, TS)):
                 a[idx] = sc.lift_num(a[idx])
     return a
 
 
+def _taint_join(xs):
+    n = max(len(x.dep) for x in xs if isinstance(x, TS))
+    dep = [tm.FALSE] * n
+    for x in xs:
+        if isinstance(x, TS):
+            dep = [tm.or_(a, b) for a, b in zip(dep, x.dep)]
+    return TS(dep, tm.FALSE)
+
+
+def _numarr(a):
+    """bools -> numbers; taint elements are kept as they are (their zero-ness must survive)."""
+    r = np.frompyfunc(lambda s: s if isinstance(s, TS) else s.num(), 1, 1)(a)
+    return r if isinstance(r, np.ndarray) else _obj(r)
+
+
 def _ew(f, *arrays):
-    uf = np.frompyfunc(f, len(arrays), 1)
+    def g(*xs):
+        if any(isinstance(x, TS) for x in xs):
+            return _taint_join(xs)
+        return f(*xs)
+
+    uf = np.frompyfunc(g, len(arrays), 1)
     r = uf(*arrays)
     if not isinstance(r, np.ndarray):
         r = _obj(r)
@@ -1265,6 +1287,23 @@ def dropout(a, p=0.5, training=True, inplace=False):
     return Sym(_ew(f, lift(a).a))
 
 
+@handles("batch_norm")
+def batch_norm(x, running_mean, running_var, weight=None, bias=None, training=False, momentum=0.1, eps=1e-5):
+    X = lift(x)
+    if X.a.ndim != 2:
+        raise NotModelled("batch_norm on non-2D input")
+    if X.a.size and isinstance(X.a.reshape(-1)[0], TS):
+        return Sym(_ew(lambda s: s, X.a))  # per-feature affine map / per-feature statistics: taints stay per unit
+    if training:
+        raise NotModelled("batch_norm in training mode on real-valued symbols")
+    out = (X - lift(running_mean)) / (lift(running_var) + eps).sqrt()
+    if weight is not None:
+        out = out * lift(weight)
+    if bias is not None:
+        out = out + lift(bias)
+    return out
+
+
 @handles("linear")
 def linear(x, w, b=None):
     out = matmul(x, lift(w).t() if lift(w).a.ndim == 2 else w)
@@ -1278,8 +1317,8 @@ def matmul(a, b):
     A, B = arr(a), arr(b)
     if A.ndim == 0 or B.ndim == 0:
         raise RuntimeError("matmul of 0-d tensor")
-    A = _ew(lambda s: s.num(), A)
-    B = _ew(lambda s: s.num(), B)
+    A = _numarr(A)
+    B = _numarr(B)
     return Sym(_fix(np.matmul(A, B)))
 
 
@@ -1297,7 +1336,7 @@ def dot(a, b):
 @handles("sum")
 def sum_(a, dim=None, keepdim=False, dtype=None):
     x = lift(a)
-    A = _ew(lambda s: s.num(), x.a)
+    A = _numarr(x.a)
     if isinstance(dim, (list, tuple)) and len(dim) == 0:
         dim = None  # torch: an empty dim list reduces over all dimensions
     ax = _norm_dim(dim, A.ndim)
@@ -1309,7 +1348,7 @@ def sum_(a, dim=None, keepdim=False, dtype=None):
 
 @handles("prod")
 def prod(a, dim=None, keepdim=False):
-    A = _ew(lambda s: s.num(), lift(a).a)
+    A = _numarr(lift(a).a)
     return Sym(_fix(np.prod(A, axis=_norm_dim(dim, A.ndim), keepdims=keepdim)))
 
 
@@ -1426,7 +1465,7 @@ def where(c, a=None, b=None):
 
 @handles("cumsum")
 def cumsum(a, dim, dtype=None):
-    A = _ew(lambda s: s.num(), lift(a).a)
+    A = _numarr(lift(a).a)
     return Sym(_fix(np.cumsum(A, axis=dim)))
 
 
@@ -1758,3 +1797,28 @@ def qr(a, some=True):
 
 
 # ---- creation functions that never see a Sym are patched by stubs.py ----------------------------
+
+
+@handles("nextafter")
+def nextafter(a, b):
+    """exact reals: the next representable value is the value itself (the step is below every real
+    tolerance); IEEE scalars: one unit in the last place toward `b` (only +inf / larger targets are modelled)."""
+    A, Bv = np.broadcast_arrays(arr(a), arr(b))
+
+    def f(s, t):
+        if isinstance(s, sc.FS):
+            return sc.FS(tm.fnextup(s.t))
+        return s
+
+    return Sym(_ew(f, A, Bv))
+
+
+@handles("full_like")
+def full_like2(a, fill_value, **kw):
+    A = lift(a).a
+    v = fill_value
+    if isinstance(v, float) and (v == float("inf") or v == float("-inf")):
+        s = S(tm.var("+oo" if v > 0 else "-oo"))
+    else:
+        s = S.of(v)
+    return Sym(_full(A.shape, s))
